@@ -52,6 +52,7 @@ DeriveMsg(cls, mk) ==
     ELSE IF mk = "kwtemplate" THEN [k |-> "template", t |-> "kw", f |-> fmt]
     \* a keyword template whose format spec itself contains a replacement field: '{x:>{w}}'
     ELSE IF mk = "kwnested" THEN [k |-> "template", t |-> "kwn", f |-> fmt]
+    ELSE IF mk = "kwattr" THEN [k |-> "template", t |-> "kwa", f |-> fmt]     \* fields addressed through their attributes
     ELSE IF mk = "kwcustom" THEN [k |-> "template", t |-> "kwc", f |-> fmt]
     ELSE [k |-> "template", t |-> Eff(attr, cls, "template"), f |-> fmt]
 NoMsg == [k |-> "none", t |-> "-", f |-> "-"]
@@ -92,7 +93,7 @@ Attach(o, i) == /\ active' = IF o.list = "active" THEN Append(active, i) ELSE ac
 \* par: the `parent` keyword -- "none", or "str": a section named by a plain string (bookkeeping is the same)
 Create(cls, mk, out, delay, par) ==
     /\ CanAct /\ Len(objs) < MaxObjs
-    /\ ~(mk = "explicit" /\ out = "MR") /\ ~(cls = "T" /\ out = "CR") /\ ~(cls = "T" /\ mk \in {"kwnested", "kwcustom"})
+    /\ ~(mk = "explicit" /\ out = "MR") /\ ~(cls = "T" /\ out = "CR") /\ ~(cls = "T" /\ mk \in {"kwnested", "kwcustom", "kwattr"})
     /\ delay => cls \in DelayCls
     /\ LET o0 == [cls |-> cls, mk |-> mk, out |-> out, eff |-> out, status |-> "delayed", truth |-> FALSE,
                   list |-> "none", msg |-> NoMsg]
